@@ -1,24 +1,27 @@
 (* Model/Dispatch.v — one integer-list interface over all executable models,
    used by the extracted OCaml driver and by the in-kernel cases.v sample. *)
 From Coq Require Import ZArith List Bool.
-From Verif Require Import Base.Word64 Model.Sketch.
+From Verif Require Import Base.Word64 Model.Sketch Model.Expiry.
 Import ListNotations.
 Open Scope Z_scope.
 
 Inductive mstate :=
 | MSketch (s : sketch)
+| MExpiry
 | MNone.
 
-(* model ids: 1 sketch *)
+(* model ids: 1 sketch, 2 expiry arithmetic *)
 Definition m_init (model : Z) (cfg : list Z) : mstate :=
   match model with
   | 1 => MSketch (sk_init cfg)
+  | 2 => MExpiry
   | _ => MNone
   end.
 
 Definition m_step (m : mstate) (op : list Z) : mstate * list Z :=
   match m with
   | MSketch s => let '(s', o) := sk_step s op in (MSketch s', o)
+  | MExpiry => let '(_, o) := ex_step tt op in (MExpiry, o)
   | MNone => (MNone, [-999])
   end.
 
